@@ -113,6 +113,8 @@ def _run(cfg):
     if len(a) == len(SCENARIO):
         s1, s2, s3 = SESSION_STARTS
         opens = [a[s + 1][3] for s in SESSION_STARTS]          # raw writes at CONN_OK
+        # (sessions 4, 5 and 6 too: after a capability-less peer, after the operator's stop / start with the late close, after the drop)
+        opens += [a[i][3] for i, e in enumerate(SCENARIO) if e[0] == 'CONN_OK' and i > SESSION_STARTS[-1] + 1]
         for n, o in enumerate(opens[1:], 2):
             if o != opens[0]:
                 v.append(('session-independence|the OPEN of a later session differs from the OPEN of the first',
